@@ -90,6 +90,21 @@ func c11stressTypes() []*gen.T {
 		M(L(gen.KInt64)), M(ints), S(ints), M(L(gen.KInt)), M(S(L(gen.KInt64))), P(ints),
 		P(M(M(P(L(gen.KString))))), S(S(S(L(gen.KString)))), M(S(M(S(L(gen.KBytes))))), P(P(P(inner))), P(S(P(M(L(gen.KString))))),
 	}
+	// a wide record with pointers to many distinct types (a bank that knows 16, 17, 32, 33 types), the first of
+	// them allocated again and again between first uses of new types
+	mk := func(k int) *gen.T {
+		return gen.StructOf(gen.Fld(fmt.Sprintf("V%d", k), fmt.Sprintf("v%d", k), false, L(gen.KInt64)), gen.Fld("S", "s", false, L(gen.KString)))
+	}
+	for _, width := range []int{15, 16, 17, 31, 33} {
+		var fs []*gen.F
+		a := mk(0)
+		for k := 0; k < width; k++ {
+			fs = append(fs, gen.Fld(fmt.Sprintf("P%d", k), fmt.Sprintf("p%d", k), false, P(mk(k))))
+		}
+		fs = append(fs, gen.Fld("X1", "x1", false, S(P(a))), gen.Fld("N1", "n1", false, P(mk(100))), gen.Fld("X2", "x2", false, S(P(a))), gen.Fld("O1", "o1", false, P(mk(1))),
+			gen.Fld("X3", "x3", false, S(P(a))), gen.Fld("N2", "n2", false, P(mk(101))), gen.Fld("X4", "x4", false, M(P(a))), gen.Fld("O2", "o2", false, P(L(gen.KInt32))), gen.Fld("X5", "x5", false, S(P(a))))
+		shapes = append(shapes, gen.StructOf(fs...))
+	}
 	var out []*gen.T
 	for i, sh := range shapes {
 		out = append(out, gen.StructOf(
@@ -198,17 +213,31 @@ func c11genFile(c *core.Ctx, i int, r *rand.Rand) *c11file {
 			f.t = gen.GenStruct(r, gen.TypeOpts{MaxDepth: 3 + r.IntN(2), MaxFields: 2 + r.IntN(4), NoExcluded: true})
 		}
 		huge := i%48 == 9
+		hugeLo, hugeSpan := 0, 1
 		if huge {
 			// one record with tens of thousands of pointees of one type (bank arenas far beyond their first sizes)
 			inner := gen.StructOf(gen.Fld("A", "a", false, gen.Leaf(gen.KInt64)), gen.Fld("S", "s", false, gen.Leaf(gen.KString)), gen.Fld("P", "p", false, gen.PtrTo(gen.Leaf(gen.KInt32))))
+			hugeLo, hugeSpan = 30000, 40000
+			switch (i / 48) % 3 {
+			case 1:
+				// few pointees, each a megabyte wide (a field the schema does not name): 33-48 MiB of one type in one bank
+				pad := gen.Fld("Pad", "", false, &gen.T{K: gen.KArray, N: 1 << 20, Elem: gen.Leaf(gen.KUint8)})
+				pad.Excl = gen.ExclJSONDash
+				inner = gen.StructOf(gen.Fld("A", "a", false, gen.Leaf(gen.KInt64)), pad, gen.Fld("S", "s", false, gen.Leaf(gen.KString)))
+				hugeLo, hugeSpan = 33, 16
+			case 2:
+				// more than 2^20 pointees of one small type
+				inner = gen.Leaf(gen.KInt64)
+				hugeLo, hugeSpan = 1<<20+1000, 100000
+			}
 			f.t = gen.StructOf(gen.Fld("X", "x", false, gen.SliceOf(gen.PtrTo(inner))), gen.Fld("N", "n", false, gen.Leaf(gen.KInt64)))
 			f.t = &gen.T{K: gen.KStruct, Fields: f.t.Fields}
-			nrec = 3
+			nrec = 2
 		}
 		for k := 0; k < nrec; k++ {
 			if huge {
 				val := reflect.New(f.t.RT()).Elem()
-				n := 30000 + r.IntN(40000)
+				n := hugeLo + r.IntN(hugeSpan)
 				sl := reflect.MakeSlice(val.Field(0).Type(), n, n)
 				for j := 0; j < n; j++ {
 					sl.Index(j).Set(gen.NewValue(r, f.t.Fields[0].T.Elem, gen.ValOpts{Mode: gen.ModeFull, NoBigStrings: true}))
@@ -417,7 +446,7 @@ func init() {
 		ID:        "C11",
 		Level:     "exploration",
 		Technique: "runtime monitoring: decode and encode workloads under the runtime's own GC debugging (GODEBUG=clobberfree=1, gccheckmark=1, GOGC=1), forced collections + heap churn at hook points inside the library, a background collector goroutine, and deep re-examination of every retained value afterwards; second Go runtime in the thorough tier",
-		Rule: "files from the library's encoder (32 explicit stress shapes: maps/slices behind pointers, maps of maps, maps of slices, pointer chains, wrappers in every position; plus random composite-heavy types) and from the reference writer into target variations; every second record of a library-encoded file has its 64-bit integer leaves overwritten with address-like values (addresses inside spans the runtime has freed), so integer data parked in pointer-typed memory is a runtime bad-pointer stop; a collection is forced on every k-th hit of each hook point (k = 1..7 by case), then 5 rounds of GC+churn before every retained record is compared; " +
+		Rule: "files from the library's encoder (37 explicit stress shapes: maps/slices behind pointers, maps of maps, maps of slices, pointer chains, wrappers in every position; plus random composite-heavy types) and from the reference writer into target variations; every second record of a library-encoded file has its 64-bit integer leaves overwritten with address-like values (addresses inside spans the runtime has freed), so integer data parked in pointer-typed memory is a runtime bad-pointer stop; a collection is forced on every k-th hit of each hook point (k = 1..7 by case), then 5 rounds of GC+churn before every retained record is compared; " +
 			"distinct_nontrivial = distinct (origin, type shape) combinations decoded under forced collections and re-verified",
 		Explanation: "clobberfree makes the collector overwrite every object it frees, so 'reachable only through a non-pointer word' becomes a value mismatch at the next comparison instead of depending on reuse; hook points put a cycle into each window (after New before use, before mapassign, after slice regrowth, around the callback, inside the map-iteration loop). A runtime fatal error (bad pointer, found pointer to free object) kills the child and is attributed via the journal.",
 		Assumptions: []string{"open finding c01.nested-null is kept out of the values (it is about representability, not the collector)", "hook points are optional aids: if a call site is missing from the tree the outside-in stressors (GOGC=1, background GC, post-decode rounds) still apply"},
